@@ -73,8 +73,9 @@ struct JobOut {
 
 fn run_job(job: &Job, seed: u64, proto: &Report) -> JobOut {
     let run_all = |part: &mut Report| {
-        let st = check_op(&job.entry, &job.inputs, &job.opts, seed, part);
-        let ex = run_extra(&job.entry, &job.inputs, job.opts.max_bit_len, job.deep, seed, part);
+        let inputs = attacks::preflight(&job.entry, &job.inputs, job.opts.max_bit_len, part);
+        let st = check_op(&job.entry, &inputs, &job.opts, seed, part);
+        let ex = run_extra(&job.entry, &inputs, job.opts.max_bit_len, job.deep, seed, part);
         (st, ex)
     };
     let mut part = proto.fork();
